@@ -14,6 +14,7 @@ import GM.Proof.QuoteSimNonePos
 import GM.Proof.QuoteSimFinal
 import GM.Proof.QuoteSimOpens
 import GM.Proof.QuoteSimInvP
+import GM.Proof.BlocksOrdRun
 
 namespace GM.Blocks
 open GM GM.Text GM.Spec GM.Proof.Reader
@@ -30,17 +31,24 @@ theorem frames_all (al : BP → Bool) (hnl : ∀ bp, al bp = true → bp.notList
     ⟨by rw [bpOpen_opened bp parent s s' a h]; exact ha.opened,
      bpOpen_tmp bp parent s s' a h (fun b hb => (ha.opened b hb).2) ha.tmp,
      bpOpen_fence bp parent s s' a h ha.fence,
-     us_bpOpen bp (hnl bp hal) parent s a s' ha.u h⟩
+     us_bpOpen bp (hnl bp hal) parent s a s' ha.u h,
+     by rw [bpOpen_opened bp parent s s' a h]; exact ha.pk.kg (kgn_of_keeps (fun n0 => kg_bpOpen n0 bp (hnl bp hal) parent) h)⟩
   cont := fun bp node s a s' h hal hn0 ha =>
     ⟨by rw [bpContinue_opened bp node s s' a h]; exact ha.opened,
      bpContinue_tmp bp node s s' a h ha.tmp,
      bpContinue_fence bp node s s' a h ha.fence,
-     us_bpContinue bp (hnl bp hal) node hn0 s a s' ha.u h⟩
+     us_bpContinue bp (hnl bp hal) node hn0 s a s' ha.u h,
+     by rw [bpContinue_opened bp node s s' a h]; exact ha.pk.kg (kgn_of_keeps (fun n0 => kg_bpContinue n0 bp (hnl bp hal) node) h)⟩
   close := fun bp node s a s' h hal hn0 ha =>
     ⟨by rw [bpClose_opened bp node s s' a h]; exact ha.opened,
      bpClose_tmp bp node s s' a h ha.tmp,
      bpClose_fence bp node s s' a h ha.fence,
-     us_bpClose bp (hnl bp hal) node hn0 s a s' ha.u h⟩
+     us_bpClose bp (hnl bp hal) node hn0 s a s' ha.u h,
+     by rw [bpClose_opened bp node s s' a h]; exact ha.pk.kg (kgn_of_keeps (fun n0 => kg_bpClose n0 bp (hnl bp hal) node) h)⟩
+  openKG := fun bp parent s a s' h hal => kgn_of_keeps (fun n0 => kg_bpOpen n0 bp (hnl bp hal) parent) h
+  contKG := fun bp node s a s' h hal => kgn_of_keeps (fun n0 => kg_bpContinue n0 bp (hnl bp hal) node) h
+  closeKG := fun bp node s a s' h hal => kgn_of_keeps (fun n0 => kg_bpClose n0 bp (hnl bp hal) node) h
+  openNR := fun bp parent s a s' id h hid hal => bpOpen_kind bp (hnl bp hal) parent h id hid
   req := fun bp parent s a s' h hr => (requirePara_setext bp parent s s' a h hr).2
   nonePos := fun bp parent s a s' h hn => bpOpen_none_pos bp parent s s' a h hn
   contOpened := fun bp node s a s' h => bpContinue_opened bp node s s' a h
@@ -80,18 +88,22 @@ theorem ps_all (src : Bytes) : PS src alC08 where
     | thematic => exact contW (thematicContinue_sim src) k ls p node sA sB hs
     | list => cases hal
     | listItem => cases hal
-    | code => exact contW (codeContinue_sim src) k ls p node sA sB hs
+    | code =>
+      exact S2.mono (codeContinue_sim' src k ls p node sA sB hs hp)
+        (fun _ _ _ _ hh => ⟨hh.1, hh.2.choose, hh.2.choose_spec.2⟩)
     | atx => exact contW (atxContinue_sim src) k ls p node sA sB hs
     | fenced =>
       exact S2.mono (fencedContinue_sim' src k ls p node sA sB hs ha.fence hns)
         (fun _ _ _ _ hh => ⟨hh.1, hh.2.choose, hh.2.choose_spec.2⟩)
     | blockquote => exact contW (blockquoteContinue_sim src) k ls p node sA sB hs
-    | html => exact contW (htmlContinue_sim src) k ls p node sA sB hs
+    | html =>
+      exact S2.mono (htmlContinue_sim' src k ls p node sA sB hs hp)
+        (fun _ _ _ _ hh => ⟨hh.1, hh.2.choose, hh.2.choose_spec.2⟩)
     | paragraph => exact contW (paragraphContinue_sim src) k ls p node sA sB hs
   close := by
-    intro bp hal k ls p node sA sB hs hn0 ha
+    intro bp hal k ls p node sA sB hs hn0 ha hnr
     cases bp with
-    | setext => exact setextClose_sim' src k ls p node sA sB hs hn0 ha.tmp
+    | setext => exact setextClose_sim' src k ls p node sA sB hs hn0 ha.tmp (hnr (.inr rfl))
     | thematic => exact thematicClose_sim src k ls p node sA sB hs
     | list => cases hal
     | listItem => cases hal
@@ -100,24 +112,49 @@ theorem ps_all (src : Bytes) : PS src alC08 where
     | fenced => exact fencedClose_sim src k ls p node sA sB hs
     | blockquote => exact blockquoteClose_sim src k ls p node sA sB hs
     | html => exact htmlClose_sim src k ls p node sA sB hs
-    | paragraph => exact paragraphClose_sim src k ls p node sA sB hs
+    | paragraph => exact paragraphClose_sim' src k ls p node sA sB hs (hnr (.inl rfl))
 
 /-- no byte of the source can start a list item: no `-`, `*`, `+`, no digit -/
 def NoListTrigger (src : Bytes) : Prop := ∀ c ∈ src, c ≠ 45 ∧ c ≠ 42 ∧ c ≠ 43 ∧ isNumeric c = false
 
-theorem trig_all {src : Bytes} (h : NoListTrigger src) : TrigOK src alC08 where
-  free := by intro bp hb; simp [freeParsers] at hb; rcases hb with rfl | rfl <;> rfl
+/-- every parser that can be tried on a line is covered (`alC08`) or is a list parser (handled by `OT.lsim / ldecl`) -/
+theorem trig_all (src : Bytes) : TrigOK src alC08 where
+  free := by intro bp hb; simp [freeParsers] at hb; rcases hb with rfl | rfl <;> exact .inl rfl
   trig := by
-    intro c hc bp hb
-    obtain ⟨h1, h2, h3, h4⟩ := h c hc
-    have e1 : (c == 45) = false := beq_eq_false_iff_ne.mpr h1
-    have e2 : (c == 42) = false := beq_eq_false_iff_ne.mpr h2
-    have e3 : (c == 43) = false := beq_eq_false_iff_ne.mpr h3
-    unfold triggered at hb
-    simp only [e1, e2, e3, h4, Bool.false_eq_true, if_false, Bool.or_self, freeParsers] at hb
-    repeat' split at hb
-    all_goals simp at hb
-    all_goals (rcases hb with rfl | rfl | rfl) <;> rfl
+    intro c _ bp hb
+    cases bp <;> first | exact .inl rfl | exact .inr rfl
+
+theorem matchesListItem_notList_of_parse {v : Bytes} {b : Bool} (h : (parseListItem v).2 = ListTyp.notList) :
+    (matchesListItem v b).2 = ListTyp.notList := by
+  unfold matchesListItem
+  simp only
+  split
+  · next hc => rw [h] at hc; simp at hc
+  · rfl
+
+/-- a source without the bytes `- * +` and without digits has no position that starts a list item -/
+theorem noItem_of_noTrigger {src : Bytes} (h : NoListTrigger src) : NoItem src := by
+  intro p _
+  apply matchesListItem_notList_of_parse
+  have hv : ∀ c ∈ sub src p (lineEnd src p), c ∈ src := by
+    intro c hc
+    unfold sub at hc
+    exact List.mem_of_mem_drop (List.mem_of_mem_take hc)
+  generalize sub src p (lineEnd src p) = v at hv
+  unfold parseListItem
+  simp only
+  split
+  · rfl
+  · split
+    · rfl
+    · next c cs hd =>
+      have hc : c ∈ v := List.mem_of_mem_drop (by rw [hd]; exact List.mem_cons_self ..)
+      obtain ⟨h1, h2, h3, h4⟩ := h c (hv c hc)
+      have e1 : (c == 45) = false := beq_eq_false_iff_ne.mpr h1
+      have e2 : (c == 42) = false := beq_eq_false_iff_ne.mpr h2
+      have e3 : (c == 43) = false := beq_eq_false_iff_ne.mpr h3
+      simp only [e1, e2, e3, Bool.or_self, Bool.false_eq_true, if_false, List.takeWhile, h4, List.length_nil,
+        beq_self_eq_true, Bool.true_or, if_true]
 
 /-! ### the class of sources, and the start of the two runs -/
 
@@ -132,15 +169,55 @@ structure C08Class (src : Bytes) : Prop where
 theorem C08Class.ne {src} (h : C08Class src) : src ≠ [] := by
   intro e; have := h.nl; rw [e] at this; cases this
 
-theorem cls_of {src} (h : C08Class src) : Cls src alC08 where
+/-- the wider class: the source need not end with a line feed; it is not empty and does not end with a space (a last
+    line without `\n` that ends with spaces is where `fencedCodeBlockParser.Continue` calls `Advance(-1)`) -/
+structure C08ClassW (src : Bytes) : Prop where
+  tf : ∀ c ∈ src, c ≠ 9
+  cr : ∀ c ∈ src, c ≠ 13
+  ne : src ≠ []
+  last : ∀ c, src.getLast? = some c → c ≠ 32
+  nolist : NoListTrigger src
+
+/-- the widest class: no position of the source starts a list item (`NoItem`: bullets and numbers are allowed where no
+    space, tab or line end follows the marker) -/
+structure C08ClassL (src : Bytes) : Prop where
+  tf : ∀ c ∈ src, c ≠ 9
+  cr : ∀ c ∈ src, c ≠ 13
+  ne : src ≠ []
+  last : ∀ c, src.getLast? = some c → c ≠ 32
+  noitem : NoItem src
+
+theorem C08ClassW.wider {src} (h : C08ClassW src) : C08ClassL src :=
+  ⟨h.tf, h.cr, h.ne, h.last, noItem_of_noTrigger h.nolist⟩
+
+theorem C08Class.wide {src} (h : C08Class src) : C08ClassW src :=
+  ⟨h.tf, h.cr, h.ne, fun c hc => by rw [h.nl] at hc; cases hc; decide, h.nolist⟩
+
+theorem qpg_length_ge (l : Bytes) (b : Bool) : l.length ≤ (quotePrefixGo l b).length := by
+  induction l generalizing b with
+  | nil => simp [quotePrefixGo]
+  | cons c cs ih =>
+    have := ih (c == 10)
+    simp only [quotePrefixGo, List.length_append, List.length_cons]
+    omega
+
+theorem qp_length_ne {src : Bytes} (h : src ≠ []) : src.length + 2 ≤ (quotePrefix src).length := by
+  cases src with
+  | nil => exact absurd rfl h
+  | cons c cs =>
+    have := qpg_length_ge cs (c == 10)
+    simp only [quotePrefix, quotePrefixGo, if_true, List.length_append, List.length_cons, List.length_nil]
+    omega
+
+theorem cls_of {src} (h : C08ClassL src) : Cls src alC08 where
   ps := ps_all src
   fr := frames_all _ alC08_notList
-  ot := ot_all src
-  ns := ns_of_last h.nl
-  tr := trig_all h.nolist
+  ot := ot_all src h.noitem
+  ns := ns_of_last_ne h.last
+  tr := trig_all src
   tf := h.tf
   h0 := lineAt_zero_qs src h.ne
-  shape := fun _ _ hl hb => blank_shape h.tf h.cr h.nl hl hb
+  shape := fun _ _ hl hb => blank_shape_w h.tf h.cr h.last hl hb
 
 theorem storeRel_init (src : Bytes) (blank : Bool) :
     StoreRel src [{ kind := .document }]
@@ -153,7 +230,8 @@ theorem storeRel_init (src : Bytes) (blank : Bool) :
     intro i
     cases i with
     | zero =>
-      exact ⟨⟨rfl, rfl⟩, ⟨rfl, rfl⟩, rfl, trivial, rfl, rfl, rfl, rfl, rfl, rfl, rfl, trivial, .inl ⟨by decide, rfl⟩⟩
+      exact ⟨⟨rfl, rfl⟩, ⟨rfl, rfl⟩, rfl, trivial, rfl, rfl, rfl, rfl, rfl, rfl, rfl, trivial, .inl ⟨by decide, rfl⟩,
+        (fun _ l hl => by cases hl), (fun i hi => by cases hi), (fun h => absurd h (by decide))⟩
     | succ j => exact nodeRel_default src
 
 theorem parseBlocks_eq (src : Bytes) :
@@ -233,7 +311,7 @@ theorem openBlocks_nil (q : Nat) (b : Bool) (s : St) (ho : s.pc.opened = []) :
 
 /-- **The whole-run simulation.** If the block phase on `src` ends normally having read all lines, the block phase
     on `quotePrefix src` ends normally, and the two final node stores are related. -/
-theorem run_sim {src : Bytes} (hc : C08Class src) {sA' : St} (hA : run src = .ok sA') :
+theorem run_sim {src : Bytes} (hc : C08ClassL src) {sA' : St} (hA : run src = .ok sA') :
     ∃ sB', run (quotePrefix src) = .ok sB' ∧ FRel src sA'.nodes sB'.nodes := by
   have cl := cls_of hc
   have h0 := cl.h0
@@ -262,7 +340,7 @@ theorem run_sim {src : Bytes} (hc : C08Class src) {sA' : St} (hA : run src = .ok
       obtain ⟨sB', e, hrel⟩ := hgoal
       exact ⟨sB', by unfold run; rw [e]; rfl, hrel⟩
     rw [parseBlocks_eq, show linesFuel (quotePrefix src) = lineCount (quotePrefix src) + 1 + 1 from rfl, eB]
-    have hai : AInv alC08 (initSt src).pc (initSt src).nodes := ⟨fun _ hb => (by cases hb), (by intro e; cases e), fun _ hf => (by cases hf), ustore_init⟩
+    have hai : AInv alC08 (initSt src).pc (initSt src).nodes := ⟨fun _ hb => (by cases hb), (by intro e; cases e), fun _ hf => (by cases hf), ustore_init, PKL.nil _⟩
     by_cases hb : isBlank (sub src 0 (lineEnd src 0)) = true
     · -- A skips its first line
       obtain ⟨r1, e1, hr1⟩ := skipFrom_blank h0 hriA hb (4 * src.length + 63) 0
@@ -323,11 +401,10 @@ theorem run_sim {src : Bytes} (hc : C08Class src) {sA' : St} (hA : run src = .ok
             pc := { ({} : Ctx) with blockOffset := 0, blockIndent := 0, opened := [{ node := 1, bp := .blockquote }] } } :=
         ⟨⟨hc.tf, InL.start h0, hr1, hr'⟩, storeRel_init src blankB, ⟨rfl, rfl, rfl, rfl, rfl⟩, hai⟩
       have hfuel : retryFuel src ≤ 2 * (quotePrefix src).length + 7 := by
-        have := qp_length_nl src
-        have := nlCount_pos_of_last hc.nl
+        have := qp_length_ne hc.ne
         unfold retryFuel; omega
       obtain ⟨db, sB2, eOB, hrr, _, ⟨p', hDR⟩, hopens⟩ := openBlocksLoop_sim cl.ps cl.fr cl.ot cl.ns cl.tr _ blankB false _ _ hfuel 0
-        OpenResult.noBlocksOpened OpenResult.newBlocksOpened none none hdrl (.inl rfl) (.inr ⟨rfl, rfl⟩) d sA2 hd
+        OpenResult.noBlocksOpened OpenResult.newBlocksOpened none none hdrl (.inl rfl) (.inr ⟨rfl, rfl⟩) (fun hc => by cases hc) d sA2 hd
       rw [bind_run eOB]
       have hdn0 : d = OpenResult.newBlocksOpened := by
         refine hopens rfl (.inr ⟨rfl, ?_⟩)
@@ -378,22 +455,48 @@ theorem wellShaped_of {s : St} (hu : UStore s.nodes) (hne : SegsNE s) : WellShap
 theorem WellShaped.segsNE {s : St} (h : WellShaped s) : SegsNE s :=
   fun n hn => ⟨(h.2 n hn).2.1, (h.2 n hn).2.2.1, (h.2 n hn).2.2.2.1⟩
 
-/-- the conclusion on the dumps: for a source of the class whose block phase ends normally in a store without empty
-    segments, the two canonical dumps compared by `quoteSimPair` are equal. (That the original run reads all lines,
-    that the Document has no lines and is nobody's child, and that there is no List / ListItem node are proved:
-    `run_sim`.) -/
-theorem quoteSim_of_class {src : Bytes} (hc : C08Class src) {sA : St} (hA : run src = .ok sA)
-    (hne : SegsNE sA) : ∀ e g, quoteSimPair src = some (e, g) → e = g := by
+theorem rawK_eq (k : Kind) : rawK k = GM.Proof.BlocksWF0.isRaw k := by cases k <;> rfl
+
+/-- **no stored segment of the original run is empty**, from the relation between the two final stores (raw blocks'
+    lines, info and closure segments: `NodeRel.rawNE / infoNE / closNE`, kept by the simulation for sources in which
+    every position inside a line has a rest of line) and `GM.Blocks.run_segs_nonempty` (package wf0: the lines of every
+    block that is not raw, for every byte string) -/
+theorem segsNE_of_rel {src : Bytes} {sA : St} {nB : List Node} (hA : run src = .ok sA)
+    (hn : StoreRel src sA.nodes nB) : SegsNE sA := by
+  intro n hmem
+  obtain ⟨i, hi, rfl⟩ := List.getElem_of_mem hmem
+  have hnr := hn.node i
+  have e : sA.nodes.getD i default = sA.nodes[i] := by simp [List.getD_eq_getElem?_getD, hi]
+  rw [e] at hnr
+  refine ⟨fun l hl => ?_, hnr.infoNE, hnr.closNE⟩
+  cases hr : rawK sA.nodes[i].kind with
+  | true => exact hnr.rawNE hr l hl
+  | false => exact (run_segs_nonempty src sA hA _ hmem (by rw [← rawK_eq]; exact hr) l hl).1
+
+/-- the conclusion on the dumps, UNCONDITIONALLY for a source of the class: the two canonical dumps compared by
+    `quoteSimPair` are equal -/
+theorem quoteSim_of_class {src : Bytes} (hc : C08ClassL src) {sA : St} (hA : run src = .ok sA) :
+    ∀ e g, quoteSimPair src = some (e, g) → e = g := by
   obtain ⟨sB, hB, hn, hu⟩ := run_sim hc hA
-  exact quoteSimPair_eq src sA sB hA hB hn (wellShaped_of hu hne)
+  exact quoteSimPair_eq src sA sB hA hB hn (wellShaped_of hu (segsNE_of_rel hA hn))
 
 /-- the unary facts about the original run of a source of the class that are PROVED: its final store satisfies
     `UStore` (Document without lines and nobody's child, no List / ListItem node) -/
-theorem ustore_of_class {src : Bytes} (hc : C08Class src) {sA : St} (hA : run src = .ok sA) : UStore sA.nodes := by
+theorem ustore_of_class {src : Bytes} (hc : C08ClassL src) {sA : St} (hA : run src = .ok sA) : UStore sA.nodes := by
   obtain ⟨_, _, _, hu⟩ := run_sim hc hA
   exact hu
 
 instance (src : Bytes) : Decidable (NoListTrigger src) := by unfold NoListTrigger; infer_instance
+
+instance (src : Bytes) : Decidable (C08ClassL src) :=
+  decidable_of_iff ((∀ c ∈ src, c ≠ 9) ∧ (∀ c ∈ src, c ≠ 13) ∧ src ≠ [] ∧ (∀ c, src.getLast? = some c → c ≠ 32) ∧
+      NoItem src)
+    ⟨fun h => ⟨h.1, h.2.1, h.2.2.1, h.2.2.2.1, h.2.2.2.2⟩, fun h => ⟨h.tf, h.cr, h.ne, h.last, h.noitem⟩⟩
+
+instance (src : Bytes) : Decidable (C08ClassW src) :=
+  decidable_of_iff ((∀ c ∈ src, c ≠ 9) ∧ (∀ c ∈ src, c ≠ 13) ∧ src ≠ [] ∧ (∀ c, src.getLast? = some c → c ≠ 32) ∧
+      NoListTrigger src)
+    ⟨fun h => ⟨h.1, h.2.1, h.2.2.1, h.2.2.2.1, h.2.2.2.2⟩, fun h => ⟨h.tf, h.cr, h.ne, h.last, h.nolist⟩⟩
 
 instance (src : Bytes) : Decidable (C08Class src) :=
   decidable_of_iff ((∀ c ∈ src, c ≠ 9) ∧ (∀ c ∈ src, c ≠ 13) ∧ src.getLast? = some 10 ∧ NoListTrigger src)
@@ -416,6 +519,6 @@ theorem quoteSim_of_hyp {src : Bytes} (h : quoteHyp src = true) : ∀ e g, quote
   | ok s =>
     rw [hr] at hm
     simp only [Bool.and_eq_true, decide_eq_true_eq] at hm
-    exact quoteSim_of_class hc hr hm.2.segsNE
+    exact quoteSim_of_class hc.wide.wider hr
 
 end GM.Blocks
